@@ -1,7 +1,15 @@
 #!/bin/sh
 # Re-run every stored seeded change against its property's check (quick tier) and print caught/MISSED per seed.
-for d in /verif/seeded/*/; do
-  n=$(basename $d); id=${n%-*}
-  r=$(/verif/tools/seedtest.sh $d/patch.diff $d/demo.py $id ${1:-quick} 2>&1)
+# usage: tools/recheck_seeds.sh [tier] [parallel]
+one() {
+  d=$1; n=$(basename $d); id=${n%-*}
+  D=/tmp/seedrepo.r$$.$n
+  rm -rf $D; mkdir -p $D && cp -r /repo/src $D/src
+  if ! ( cd $D && git apply $d/patch.diff ); then echo "$n APPLY-FAILED"; rm -rf $D; return; fi
+  r=$(VERIF_REPO=$D VERIF_NOEVIDENCE=1 /verif/check $id ${TIER:-quick} 2>&1)
+  rm -rf $D
   if echo "$r" | grep -q "^VIOLATION"; then echo "$n caught"; else echo "$n MISSED :: $(echo "$r" | tail -1 | cut -c1-120)"; fi
-done
+}
+TIER=${1:-quick}
+if [ -n "$RECHECK_ONE" ]; then one "$RECHECK_ONE"; exit 0; fi
+ls -d /verif/seeded/*/ | TIER=$TIER xargs -P ${2:-3} -I{} env RECHECK_ONE={} /verif/tools/recheck_seeds.sh $TIER
